@@ -400,12 +400,22 @@ function decodeValue(j, fns) {
   return o
 }
 
-function decodeTree(j) {
+function decodeTree(j, arrayForm) {
   // update path tree: true | {k: tree}
   if (j === true) return true
   if (j === null || j === undefined) return undefined
+  const keys = Object.keys(j)
+  // the form the runtime builds for array splices (glass-easel/src/tmpl/index.ts): the index marks live in an array that is
+  // the PROTOTYPE of the node, `length` is inherited from that array (a number) or an own `true`
+  if (arrayForm && keys.length > 0 && keys.every((k) => k === 'length' || /^(0|[1-9][0-9]*)$/.test(k))) {
+    const a = []
+    for (const k of keys) if (k !== 'length') a[Number(k)] = decodeTree(j[k], arrayForm)
+    const w = Object.create(a)
+    if (keys.includes('length')) w.length = decodeTree(j.length, arrayForm)
+    return w
+  }
   const o = Object.create(null)
-  for (const k of Object.keys(j)) o[k] = decodeTree(j[k])
+  for (const k of keys) o[k] = decodeTree(j[k], arrayForm)
   return o
 }
 
